@@ -538,7 +538,9 @@ Proof.
     set (l1 := if Z.of_nat (length s) >? maxlen then maxlen else Z.of_nat (length s)).
     set (len := if 223 - dl - 2 <? l1 then 223 - dl - 2 else l1).
     assert (Hlen : 0 <= len <= 221 - dl /\ len <= Z.of_nat (length s)).
-    { subst len l1. destruct (Z.gtb_spec (Z.of_nat (length s)) maxlen); destruct (Z.ltb_spec (223 - dl - 2) _); lia. }
+    { assert (Hl1 : l1 = Z.min (Z.of_nat (length s)) maxlen) by (subst l1; destruct (Z.gtb_spec (Z.of_nat (length s)) maxlen); lia).
+      assert (Hl2 : len = Z.min (223 - dl - 2) l1) by (subst len; destruct (Z.ltb_spec (223 - dl - 2) l1); lia).
+      lia. }
     unfold add_str. cbn [mdata mlen].
     rewrite (set_buf_str_spec s d noff [2; 1] len 255 (dl + 1 + 1) Hs) by (cbn [length]; lia).
     cbn [bind fst snd app mdata mlen].
@@ -547,10 +549,8 @@ Proof.
     rewrite Hff.
     assert (Hfl : Z.of_nat (length (firstn (Z.to_nat len) s)) = len) by (rewrite firstn_length; lia).
     exists 1, (firstn (Z.to_nat len) s). split; [reflexivity|]. split.
-    + rewrite <- Hfl at 1 2. replace (dl + 1 + 1 + Z.of_nat (length (firstn (Z.to_nat len) s)))
-        with (dl + 1 + 1 + Z.of_nat (length (firstn (Z.to_nat len) s))) by reflexivity.
-      rewrite Hfl at 2. rewrite <- Hfl at 1.
-      apply (Hclose 1 (firstn (Z.to_nat len) s)). lia.
+    + set (body := firstn (Z.to_nat len) s) in *. rewrite <- Hfl.
+      apply (Hclose 1 body). lia.
     + rewrite Hfl. repeat split; try lia; try (right; reflexivity).
       apply bytes_firstn. apply cstring_bytes. exact Hs.
 Qed.
@@ -562,7 +562,7 @@ Proof.
   - cbn [Z.ltb Z.compare Z.sub Z.add Z.opp Z.pos_sub Pos.succ Z.leb Pos.compare Pos.compare_cont]. cbn.
     unfold add_byte. rewrite Hm.
     rewrite (payload_splice m (conj Hd Hl)) at 1. rewrite Hm.
-    rewrite (wr_splice (mdata m) 222 [] 1 222) by (cbn [length]; lia). cbn [bind app].
+    rewrite (wr_splice (mdata m) (Z.to_nat 222) [] 1 222) by (cbn [length]; lia). cbn [bind app].
     unfold appended. rewrite Hm. reflexivity.
   - cbn. reflexivity.
 Qed.
